@@ -249,7 +249,9 @@ def _replication(ctx, pid):
     ex = run_tlc(ctx, "MCReplication", "MCReplicationQ.cfg" if quick else "MCReplication.cfg", workers=10, timeout=5400,
                  xmx="24g", tags=())
     # (message deliveries are one disjunct of Next in TLC's coverage report)
-    core.require_actions(ex, ["ClientWrite", "Next", "GiveUp", "CatchUp", "Crash", "Restart", "ViewChange"], "replication")
+    # (every disjunct of Next carries the commit-count bookkeeping conjunct, so TLC's coverage report names them all
+    # "Next"; which kinds of step the replayed behaviours contain is checked below)
+    core.require_actions(ex, ["Next"], "replication")
     _tlc_must_hold(ctx, ex, "%s:tlc-invariant" % key)
     if not quick:
         dv = run_tlc(ctx, "MCReplication", "MCReplicationDev.cfg", workers=4, timeout=900, tags=(), expect_error=True)
@@ -313,6 +315,10 @@ def _replication(ctx, pid):
     for v in by.values():
         rnd.shuffle(v)
     sl.prints = by["ok"][: (40 if quick else 400)] + by["stale"][: (30 if quick else 200)] + by["buffered"][: (2 if quick else 10)]
+    ops_seen = {st["op"] for r in (sim, cu, sl) for _, v in r.prints for st in v["steps"]}
+    missing = {"write", "rep", "reply", "confirm", "giveup", "crash", "restart", "view", "catchup", "lose"} - ops_seen
+    if missing:
+        raise core.ToolError("vacuous replication behaviours: no step of kind %s" % sorted(missing))
     plans, n = _plans(ctx, [sim, cu, sl], "replication-plans.ndjson")
     binary = cargo_build(ctx, "h-cluster")
     hr = core.run_harness_chunked(ctx, binary, lambda part: ["vcluster", part], plans, chunk=400, timeout=9000)
